@@ -37,6 +37,13 @@ def gen(tier, rng, shard, nshards):
                "fn": S.pick(rng, ["lanczos", "lanczos", "lanczos", "lanczos_eigs", "Lanczos()"]),
                "scale": float(S.pick(rng, [1.0, 1.0, 1e6, 1e-6])), "real_start": bool(rng.random() < 0.3), "wide_start": bool(rng.random() < 0.25),
                "vscale": float(S.pick(rng, [1.0, 1.0, 1.0, 1e-12, 1e-30, 1e-9, 1e15])), "bwidth": S.pick(rng, ["3", "3", "2", "n"])}
+        if rng.random() < 0.08:
+            # hollow (bipartite) operators [[0, B], [B^H, 0]] with a start vector supported on the first block: the first Rayleigh
+            # quotient is *exactly* zero, and the Krylov space is exhausted numerically (not exactly) after 2p < n steps
+            p_, q_ = int(S.pick(rng, [1, 2, 3, 4])), int(S.pick(rng, [5, 6, 8]))
+            yield {"n": p_ + q_, "p": p_, "dt": S.pick(rng, ["f8", "c16"]), "family": "bipartite", "seed": S.seed(rng), "start": S.pick(rng, ["block", "unit-vector"]),
+                   "max_iters": S.pick(rng, ["n", "n+5", "default"]), "tol": float(S.pick(rng, [1e-8, 1e-6, 1e-5])),
+                   "fn": S.pick(rng, ["lanczos", "lanczos", "lanczos_eigs", "Lanczos()"]), "scale": 1.0}
         if rng.random() < 0.12:
             # start vectors whose Krylov space is exhausted *exactly* (residual identically zero, not merely ~1e-16):
             # kernel vector of an integer graph Laplacian, the zero operator, a coordinate eigenvector of a diagonal matrix
@@ -78,6 +85,20 @@ def build(case):
         M, v = M.astype(P.DT[dt]), v.astype(P.DT[dt])
         mi = {"2": 2, "n//2": max(1, n // 2), "n": n, "n+5": n + 5, "default": None}[case["max_iters"]]
         return M, v, np.linalg.eigvalsh(M), 1, mi, None
+    if case["family"] == "bipartite":
+        p_ = case["p"]
+        Bm = rng.standard_normal((p_, n - p_)) + (1j * rng.standard_normal((p_, n - p_)) if cplx else 0)
+        M = np.zeros((n, n), dtype=P.DT[dt])
+        M[:p_, p_:] = Bm
+        M[p_:, :p_] = Bm.conj().T
+        v = np.zeros(n, dtype=P.DT[dt])
+        if case["start"] == "unit-vector":
+            v[int(rng.integers(0, p_))] = 1.0
+        else:
+            v[:p_] = rng.standard_normal(p_) + (1j * rng.standard_normal(p_) if cplx else 0)
+        mi = {"n": n, "n+5": n + 5, "default": None}[case["max_iters"]]
+        # Krylov dimension: 2 p for a generic block start, 2 rank-limited steps for a unit vector as well (generic B)
+        return M, v, np.linalg.eigvalsh(M), 2 * p_, mi, None
     lam = spectrum(rng, n, case["family"])
     Q = P.haar(rng, n, cplx)
     M = (Q * lam) @ Q.conj().T
